@@ -225,9 +225,13 @@ func invoke(tg *target, data []byte) result {
 		defer func() {
 			if v := recover(); v != nil {
 				res.panicked = true
-				res.val = v
-				res.kind = panicKind(v)
-				res.site, res.stack = panicSite()
+				if bp, ok := v.(*bubblePanic); ok { // caught inside a synctest bubble (inBubble)
+					res.val, res.kind, res.site, res.stack = bp.val, panicKind(bp.val), bp.site, bp.stack
+				} else {
+					res.val = v
+					res.kind = panicKind(v)
+					res.site, res.stack = panicSite()
+				}
 			}
 			done <- res
 		}()
@@ -389,7 +393,7 @@ func checkOne(t vstat.Fataler, tg *target, data []byte, genClass string) {
 
 // runProp is the body of every TestProp* function: draw a target of the group, draw a case, check it.
 func runProp(t *testing.T, quick, thorough int, names ...string) {
-	currentTest = t.Name()
+	currentTest, curT = t.Name(), t
 	for _, n := range names {
 		if targets[n] == nil {
 			t.Fatalf("harness: unknown target %q", n)
